@@ -17,7 +17,11 @@ DN = {'blast': 0, 'mmseqs': 1, 'infernal': 2}
 BL = {'qseqid': str, 'sseqid': str, 'pident': float, 'length': int, 'mismatch': int, 'gapopen': int, 'qstart': int, 'qend': int,
       'sstart': int, 'send': int, 'evalue': float, 'bitscore': float, 'qlen': int, 'slen': int, 'nident': int, 'positive': int,
       'gaps': int, 'ppos': float, 'qframe': int, 'sframe': int, 'sstrand': str, 'qcovs': float, 'stitle': str, 'score': float,
-      'staxid': str, 'btop': str, 'qacc': str, 'sacc': str, 'qseq': str, 'sseq': str, 'qcovhsp': float, 'frames': str}
+      'staxid': str, 'btop': str, 'qacc': str, 'sacc': str, 'qseq': str, 'sseq': str, 'qcovhsp': float, 'frames': str,
+      # round 7: the rest of the BLAST+ manual's format specifiers (every column of sugar's table has a declared type here)
+      'qgi': str, 'qaccver': str, 'sallseqid': str, 'sgi': str, 'sallgi': str, 'saccver': str, 'sallacc': str, 'ssciname': str,
+      'scomname': str, 'sblastname': str, 'sskingdom': str, 'staxids': str, 'sscinames': str, 'scomnames': str,
+      'sskingdoms': str, 'salltitles': str, 'qcovus': float}
 BL_LONG = {'qseqid': 'query id', 'sseqid': 'subject id', 'pident': '% identity', 'length': 'alignment length',
            'mismatch': 'mismatches', 'gapopen': 'gap opens', 'qstart': 'q. start', 'qend': 'q. end', 'sstart': 's. start',
            'send': 's. end', 'evalue': 'evalue', 'bitscore': 'bit score', 'qlen': 'query length', 'slen': 'subject length',
@@ -25,11 +29,18 @@ BL_LONG = {'qseqid': 'query id', 'sseqid': 'subject id', 'pident': '% identity',
            'sframe': 'sbjct frame', 'sstrand': 'subject strand', 'qcovs': '% query coverage per subject',
            'stitle': 'subject title', 'score': 'score', 'staxid': 'subject tax id', 'btop': 'BTOP', 'qacc': 'query acc.',
            'sacc': 'subject acc.', 'qseq': 'query seq', 'sseq': 'subject seq', 'qcovhsp': '% query coverage per hsp',
-           'frames': 'query/sbjct frames'}
+           'frames': 'query/sbjct frames', 'qgi': 'query gi', 'qaccver': 'query acc.ver', 'sallseqid': 'subject ids',
+           'sgi': 'subject gi', 'sallgi': 'subject gis', 'saccver': 'subject acc.ver', 'sallacc': 'subject accs.',
+           'ssciname': 'subject sci name', 'scomname': 'subject com name', 'sblastname': 'subject blast name',
+           'sskingdom': 'subject super kingdom', 'staxids': 'subject tax ids', 'sscinames': 'subject sci names',
+           'scomnames': 'subject com names', 'sskingdoms': 'subject super kingdoms', 'salltitles': 'subject titles',
+           'qcovus': '% query coverage per uniq subject'}
 MM = {'query': str, 'target': str, 'fident': float, 'alnlen': int, 'mismatch': int, 'gapopen': int, 'qstart': int, 'qend': int,
       'tstart': int, 'tend': int, 'evalue': float, 'bits': float, 'qlen': int, 'tlen': int, 'pident': float, 'nident': int,
       'ppos': float, 'qcov': float, 'tcov': float, 'raw': str, 'cigar': str, 'qheader': str, 'theader': str, 'taxid': str,
-      'qseq': str, 'tseq': str, 'qframe': str, 'tframe': str, 'qorfstart': int, 'torfend': int}
+      'qseq': str, 'tseq': str, 'qframe': str, 'tframe': str, 'qorfstart': int, 'torfend': int,
+      'qaln': str, 'taln': str, 'qset': str, 'qsetid': str, 'tset': str, 'tsetid': str, 'taxname': str, 'taxlineage': str,
+      'qorfend': int, 'torfstart': int}
 INF = {'target': str, 'target_acc': str, 'query': str, 'query_acc': str, 'model': str, 'mstart': int, 'mend': int, 'sstart': int,
        'send': int, 'sstrand': str, 'trunc': str, 'pass': int, 'gc': float, 'bias': float, 'bitscore': float, 'evalue': float,
        'inc': str, 'description': str, 'idx': int, 'clan': str, 'overlap': str, 'anyidx': float, 'anyfrct1': float,
@@ -131,7 +142,9 @@ def extra_token(h, d, col, t, nosp):
     if col == 'qframe' and d == 'mmseqs' or col == 'tframe':
         return ['1', '-1', '0'][k % 3]
     if t is int:
-        return str([0, 1, 7, 59, 1480, 39923568, -1, 10 ** 12][k % 8]) if k % 23 else ['N/A', '-', '1.5', '+4'][k % 4]
+        if col in ('qframe', 'sframe'):
+            return ['1', '-1', '2', '-2', '3', '-3', '0', '+1'][k % 8]
+        return str([0, 1, 7, 59, 1480, 39923568, -1, 10 ** 12, -7][k % 9]) if k % 23 else ['N/A', '-', '1.5', '+4'][k % 4]
     if t is float:
         return FLOATS[k % len(FLOATS)] if k % 19 else ['N/A', '-', '*', 'nan', 'inf', '-Infinity', '1e', 'e5'][k % 8]
     toks = ['x', 'NC_081844.1', 'exon3-AMCR', 'gi|123|ref|NP_1.1|', '-', 'N/A', '5S_rRNA', 'a--b', '9606', '12', '1e5', 'A;B', 'x#1', 'plus']
@@ -143,12 +156,12 @@ def extra_token(h, d, col, t, nosp):
 def token(h, d, col, nosp=False):
     if col == 'sstrand' and d in ('blast', 'infernal'):
         return strand_token(h, d)
+    ov = h.get('x', {}).get(col)
+    if ov is not None and CORE[d].get(col) not in ('q', 's', 'qs', 'qe', 'ss', 'se', 'ev', 'bs'):
+        return ov
     f = CORE[d].get(col)
     if f is not None:
         return str(h[f]) if f in h else '-'
-    ov = h.get('x', {}).get(col)
-    if ov is not None:
-        return ov
     return extra_token(h, d, col, TYPES[d].get(col, str), nosp)
 
 
@@ -157,6 +170,30 @@ def case_cols(case):
     if d == 'infernal':
         return DEFAULT[case['_style']]
     return case.get('cols') or DEFAULT[d]
+
+
+def nblocks(case):
+    return len(case['blkcols']) if case.get('blkcols') else 1
+
+
+def blk_of(case, h):
+    return h.get('blk', 0) % nblocks(case)
+
+
+def row_cols(case, h):
+    """the columns the row of hit h is written with: those of its own block (round 7: files made of several blocks, each
+    with its own header line), or the outfmt= selection, which overrides every header line"""
+    d = case['_d']
+    if d == 'infernal' or not case.get('blkcols') or 'outfmt' in case.get('_colmode', ''):
+        return case_cols(case)
+    return case['blkcols'][blk_of(case, h)] or DEFAULT[d]
+
+
+def ordered_hits(case):
+    """hits in file order (block after block)"""
+    if not case.get('blkcols'):
+        return case['hits']
+    return sorted(case['hits'], key=lambda h: blk_of(case, h))
 
 
 def render(case):
@@ -177,40 +214,47 @@ def render(case):
     if case.get('ftype') is not None:
         kw['ftype'] = case['ftype']
     lines = []
+    blocks = [[h for h in hits if blk_of(case, h) == b] for b in range(nblocks(case))]
+    blkcols = case.get('blkcols') or [None]
     if d == 'infernal':
-        lines.append(INF_HEAD[style])
         widths = [3 + _h('w', style, i) % 9 for i in range(len(cols))]
-        lines.append('#' + '-' * (widths[0] - 1) + ''.join(' ' + '-' * w for w in widths[1:]))
-        for h in hits:
-            toks = [token(h, d, c, nosp=(c != 'description')) for c in cols]
-            toks = [t if t.strip() else '-' for t in toks]
-            pad = h.get('seed', 0)
-            row = ''
-            for i, t in enumerate(toks):
-                row += (t.rjust(widths[i]) if (pad + i) % 3 else t.ljust(widths[i])) + (' ' if i < len(toks) - 1 else '')
-            lines.append(row if not case.get('lead') else ' ' + row)
-        if case.get('trailer', True):
-            lines += ['#', '# Program:         cmsearch', '# Version:         1.1.5 (Sep 2023)',
-                      '# Option settings: cmsearch --tblout out.txt --fmt %s tRNA5.c.cm genome.fa ' % style[0], '# [ok]']
+        for bhits in blocks:
+            lines.append(INF_HEAD[style])
+            lines.append('#' + '-' * (widths[0] - 1) + ''.join(' ' + '-' * w for w in widths[1:]))
+            for h in bhits:
+                toks = [token(h, d, c, nosp=(c != 'description')) for c in cols]
+                toks = [t if t.strip() else '-' for t in toks]
+                pad = h.get('seed', 0)
+                row = ''
+                for i, t in enumerate(toks):
+                    row += (t.rjust(widths[i]) if (pad + i) % 3 else t.ljust(widths[i])) + (' ' if i < len(toks) - 1 else '')
+                lines.append(row if not case.get('lead') else ' ' + row)
+            if case.get('trailer', True):
+                lines += ['#', '# Program:         cmsearch', '# Version:         1.1.5 (Sep 2023)',
+                          '# Option settings: cmsearch --tblout out.txt --fmt %s tRNA5.c.cm genome.fa ' % style[0], '# [ok]']
     else:
         sepnone = bool(case.get('sepnone'))
         sep = ',' if style == '10' else '\t'
         kw['sep'] = None if sepnone else sep
         if colmode in ('outfmt', 'header+outfmt'):
             kw['outfmt'] = ' '.join(cols)
+        for b, bhits in enumerate(blocks):
+            bc = cols if ('outfmt' in colmode or not case.get('blkcols')) else (blkcols[b] or DEFAULT[d])
+            announced = blkcols[b] if case.get('blkcols') else cols      # None = a block without a header line
+            if d == 'blast' and style == '7':
+                lines += ['# BLASTN 2.15.0+', '# Query: exon3-AMCR MDA-chr5' if not b else '# Query: query%d' % b,
+                          '# Database: User specified sequence set (Input: x.fasta)']
+                if colmode in ('header', 'header+outfmt') and announced is not None:
+                    hc = list(reversed(announced)) if (case.get('hdrperm') and colmode == 'header+outfmt') else announced
+                    lines.append('# Fields: ' + ', '.join(BL_LONG.get(c, c) for c in hc))
+                lines.append('# %d hits found' % len(bhits))
+            if d == 'mmseqs' and style == '4' and announced is not None:
+                hc = list(reversed(announced)) if (case.get('hdrperm') and colmode == 'header+outfmt') else announced
+                lines.append(sep.join(hc))
+            for h in bhits:
+                lines.append(sep.join(token(h, d, c, nosp=sepnone) for c in bc))
         if d == 'blast' and style == '7':
-            lines += ['# BLASTN 2.15.0+', '# Query: exon3-AMCR MDA-chr5', '# Database: User specified sequence set (Input: x.fasta)']
-            if colmode in ('header', 'header+outfmt'):
-                hc = list(reversed(cols)) if (case.get('hdrperm') and colmode == 'header+outfmt') else cols
-                lines.append('# Fields: ' + ', '.join(BL_LONG.get(c, c) for c in hc))
-            lines.append('# %d hits found' % len(hits))
-        if d == 'mmseqs' and style == '4':
-            hc = list(reversed(cols)) if (case.get('hdrperm') and colmode == 'header+outfmt') else cols
-            lines.append(sep.join(hc))
-        for h in hits:
-            lines.append(sep.join(token(h, d, c, nosp=sepnone) for c in cols))
-        if d == 'blast' and style == '7':
-            lines.append('# BLAST processed 1 queries')
+            lines.append('# BLAST processed %d queries' % len(blocks))
         if case.get('blank'):
             lines.insert(len(lines) - 1, '')
     nl = '\r\n' if case.get('crlf') else '\n'
@@ -642,8 +686,205 @@ def gen_hist(rng, n):
     return out
 
 
+# ----------------------------------------------------------------------------- round 7: blocks, typed columns, any text
+
+def _essential(d):
+    return [c for c, f in CORE[d].items() if f in ('q', 's', 'qs', 'qe', 'ss', 'se', 'ev', 'bs')]
+
+
+def block_cases(rng, n):
+    """files made of several blocks, each with its own header line: BLAST outfmt 7 reports of several queries / several runs
+    concatenated ('# Fields:' lines naming different selections: same columns in another order, another number of columns,
+    a first block without Fields line = default columns), MMseqs2 fmtmode 4 and Infernal tables concatenated with the same
+    columns; with outfmt= (every header line is ignored), sep=None, comments=, CRLF"""
+    out = []
+    ess = _essential('blast')
+    directed = [
+        [ess, list(reversed(ess))],                                        # same number of columns, another order
+        [ess, ess[1:2] + ess[0:1] + ess[4:6] + ess[2:4] + ess[7:8] + ess[6:7]],   # subject first, score before e-value
+        [ess, ess + ['qframe', 'sframe', 'length']],                       # another number of columns
+        [ess + ['sstrand'], ess, ess + ['stitle', 'qlen']],
+        [None, ess],                                                       # default-column rows, then a Fields line
+        [None, list(reversed(ess)), ess],
+        [ess, ess],                                                        # the usual multi-query report
+    ]
+    k = 0
+    for blkcols in directed:
+        for hpb in (1, 2):
+            for opt in ({}, {'sepnone': True}, {'comments': True}, {'crlf': True, '_via': 'file'}):
+                k += 1
+                hits = []
+                for b in range(len(blkcols)):
+                    for j in range(hpb):
+                        h = hit_of(['minus', 'plus', 'plus', 'minus'][(k + b + j) % 4], k=7 * b + j)
+                        h.update(q='q%d' % b, s='chr%d' % (b + j), ev=FLOATS[(k + b) % 12], bs=FLOATS[(k + j + 3) % 12], blk=b, sstr='word')
+                        hits.append(h)
+                c = {'_d': 'blast', '_style': '7', '_colmode': 'header', 'blkcols': blkcols, 'hits': hits, '_via': 'stringio'}
+                c.update(opt)
+                out.append(c)
+    for _ in range(n):
+        d = rng.choice(['blast', 'blast', 'blast', 'mmseqs', 'infernal'])
+        nb = rng.choice([2, 2, 3, 4])
+        hits = []
+        for b in range(nb):
+            for _ in range(rng.choice([0, 1, 1, 2, 3])):
+                h = rand_hit(rng)
+                h['blk'] = b
+                hits.append(h)
+        if not hits:
+            hits = [dict(rand_hit(rng), blk=nb - 1)]
+        c = {'_d': d, 'hits': hits, '_via': rng.choice(['file', 'stringio'])}
+        if d == 'blast':
+            c['_style'] = '7'
+            c['_colmode'] = rng.choice(['header', 'header', 'header', 'header+outfmt'])
+            first = rand_cols(rng, d)
+            blk = [first]
+            for b in range(1, nb):
+                r = rng.random()
+                if r < 0.3:
+                    nxt = list(blk[-1])
+                    rng.shuffle(nxt)
+                elif r < 0.5:
+                    nxt = list(blk[-1])
+                else:
+                    nxt = rand_cols(rng, d)
+                blk.append(nxt)
+            if rng.random() < 0.2 and c['_colmode'] == 'header':
+                blk[0] = None
+            c['blkcols'] = blk
+            if c['_colmode'] == 'header+outfmt':
+                c['cols'] = rand_cols(rng, d)
+                c['hdrperm'] = rng.random() < 0.5
+        elif d == 'mmseqs':
+            c['_style'] = '4'
+            c['_colmode'] = 'header'
+            cols = rand_cols(rng, d) if rng.random() < 0.7 else None
+            c['blkcols'] = [cols] * nb                      # the name row repeated (cat of two result files)
+        else:
+            c['_style'] = rng.choice(['1', '2', '3', '2old'])
+            c['_colmode'] = 'default'
+            c['blkcols'] = [None] * nb
+        if d != 'infernal' and rng.random() < 0.15:
+            c['sepnone'] = True
+        if rng.random() < 0.2:
+            c['comments'] = True
+        if rng.random() < 0.1:
+            c['crlf'] = True
+        if rng.random() < 0.1:
+            c['final_nl'] = False
+        out.append(c)
+    return out
+
+
+INT_TOKS = ['0', '-1', '+1', '-2', '3', '-3', '007', '-0', '12345678901234567890', '-39923568', 'N/A', '-', '', '1.0', '1e3', '0x1f', '+', '--1', '+-1']
+FLOAT_TOKS = ['0', '0.0', '-0.0', '0e0', '1e-5', '1E-5', '1.e5', '.5e1', '5.', '-.5', '+1.25E+2', 'inf', '-Infinity', 'nan', 'NaN', 'N/A', '-', '',
+              '1e', 'e5', '.', '1.2.3', '1e+-5', '1 e5', '0x1p3', 'infinit', '1e5x', '100.000', '2734', '1e-400', '1e400', '4.9e-324']
+STR_TOKS = ['-1', '0', '1e5', 'N/A', '', 'inf', '+3', 'a b', '0.5', 'plus', '#x', '1_0']
+
+
+def typed_cases():
+    """EVERY column of every dialect's table (the oracle's own table, written from the manuals) next to the eight required
+    columns, with tokens that separate the three declared types: signed / zero / padded / non-decimal integers, plain and
+    exponent floats, zeros, inf/nan words, text that is no number, the empty field; given by outfmt=, by the '# Fields:'
+    line, by the MMseqs2 name row; Infernal columns in the four tables"""
+    out = []
+    k = 0
+    for d in ('blast', 'mmseqs'):
+        ess = _essential(d)
+        for col, t in TYPES[d].items():
+            if col in ess or col == 'sstrand':
+                continue
+            toks = INT_TOKS if t is int else FLOAT_TOKS if t is float else STR_TOKS
+            for part in range(0, len(toks), 7):
+                k += 1
+                hits = []
+                for j, tk in enumerate(toks[part:part + 7]):
+                    h = hit_of(['minus', 'plus'][(j + k) % 2], k=j)
+                    h['x'] = {col: tk}
+                    h['bs'] = ['0', '0.0', '-0.0', '50', '0e0', '1e-3', '12.5'][j % 7]
+                    hits.append(h)
+                cols = ess[:3] + [col] + ess[3:]             # not in final position: an empty field stays a field
+                style, colmode = [('6', 'outfmt'), ('7', 'header'), ('10', 'outfmt')][k % 3] if d == 'blast' else \
+                    [('0', 'outfmt'), ('4', 'header')][k % 2]
+                if style == '10':
+                    for h in hits:
+                        h['x'] = {c: v.replace(',', ';') for c, v in h['x'].items()}
+                if col in ('pident', 'fident'):
+                    hits = [h for h in hits if _is_float(h['x'][col])] or [dict(hits[0], x={col: '50'})]
+                out.append({'_d': d, '_style': style, '_colmode': colmode, 'cols': cols, 'hits': hits, '_via': 'stringio'})
+    for style in ('1', '2', '3', '2old'):
+        for col in DEFAULT[style]:
+            t = INF[col]
+            if col in CORE['infernal'] or col == 'sstrand':
+                continue
+            toks = [x for x in (INT_TOKS if t is int else FLOAT_TOKS if t is float else STR_TOKS) if x.strip() and ' ' not in x]
+            if style != '2' and col not in ('pass', 'gc'):
+                toks = toks[:6]
+            hits = []
+            for j, tk in enumerate(toks):
+                h = hit_of(['minus', 'plus'][j % 2], k=j)
+                h['x'] = {col: tk}
+                h['sstr'] = 'sign'
+                h['bs'] = ['0', '0.0', '-0.0', '50', '-1.5', '1e-3', '12.5'][j % 7]
+                h['desc'] = ['-', 'two  blanks\tand a tab', '#1 -- x', "5'&3' end , ; done", 'trailing # hash'][j % 5]
+                hits.append(h)
+            out.append({'_d': 'infernal', '_style': style, '_colmode': 'default', 'hits': hits, '_via': 'stringio'})
+    return out
+
+
+def _is_float(t):
+    try:
+        float(t)
+        return True
+    except ValueError:
+        return False
+
+
+LINE_POOL = ['#', '# comment', '#--- ---', '', '   ', '\t', '# Fields: query id, subject id', '# Fields: s. start, s. end, q. start, q. end',
+             'query\ttarget', 'qstart\tqend\ttstart\ttend', 'x', 'a\tb', ' # not a comment', '--', 'q\ts\t1\t2', '1\t2\t3\t4']
+
+
+def anytext_cases(rng, n):
+    """any list of lines: data rows, comment lines, blank lines, MMseqs2 name rows, '# Fields:' lines, rulers and junk in
+    any order, read with outfmt= (columns known) or without; decided by the model comparison (raw cases)"""
+    out = []
+    for i in range(n):
+        d = rng.choice(['blast', 'mmseqs', 'infernal'])
+        base = rand_case(rng)
+        while base['_d'] != d or base.get('enc'):
+            base = rand_case(rng)
+        content, kw = render(base)
+        ls = content.split('\n')
+        for _ in range(rng.choice([1, 2, 4, 8])):
+            ls.insert(rng.randrange(len(ls) + 1), rng.choice(LINE_POOL) if rng.random() < 0.7 else rng.choice(ls))
+        if rng.random() < 0.3:
+            rng.shuffle(ls)
+        out.append({'_d': d, 'content': '\n'.join(ls), 'sep': kw.get('sep', '\t'), 'outfmt': kw.get('outfmt'), 'ftype': kw.get('ftype'),
+                    '_via': base['_via'], 'comments': (i % 3 == 0) or None})
+    return out
+
+
+def concat_cases(rng, n):
+    """two texts one after the other (glob of files, members of a gzip file): a history [A, B, A+B] with outfmt= given"""
+    out = []
+    for _ in range(n):
+        d = rng.choice(['blast', 'mmseqs'])
+        cols = rand_cols(rng, d)
+        cs = []
+        for _ in range(2):
+            c = rand_case(rng)
+            c = {'_d': d, '_style': '6' if d == 'blast' else '0', '_colmode': 'outfmt', 'cols': cols, 'hits': c['hits'][:3], '_via': 'stringio'}
+            cs.append(as_raw(c))
+        both = dict(cs[0], content=cs[0]['content'] + cs[1]['content'])
+        out.append({'hist': [cs[0], cs[1], both], '_kind': 'concat'})
+    return out
+
+
 def gen_cases(rng, tier):
-    cases = directed_cases() + order_cases() + blank_cases() + encoding_cases()
+    cases = directed_cases() + order_cases() + blank_cases() + encoding_cases() + typed_cases()
+    cases += block_cases(rng, 1500 if tier == 'thorough' else 60)
+    cases += anytext_cases(rng, 2000 if tier == 'thorough' else 80)
+    cases += concat_cases(rng, 300 if tier == 'thorough' else 12)
     cases += gen_hist(rng, 3000 if tier == 'thorough' else 240)
     n = 20000 if tier == 'thorough' else 700
     for _ in range(n):
@@ -927,7 +1168,7 @@ def conv(t, tok):
 def expect_hit(case, h):
     """-> expected [start, stop, strand, common-subset, fmt-subset] or 'ValueError' / 'KeyError'"""
     d = case['_d']
-    cols = case_cols(case)
+    cols = row_cols(case, h)
     nosp = bool(case.get('sepnone'))
     last = {}
     if any(c not in TYPES[d] for c in cols):
@@ -975,7 +1216,8 @@ def spec_step(case, got):
         if got['comments'] != want:
             return 'comments: expected %r got %r' % (want, got['comments'])
         got = got['fts']
-    exp = [expect_hit(case, h) for h in case['hits']]
+    ohits = ordered_hits(case)
+    exp = [expect_hit(case, h) for h in ohits]
     errs = [e for e in exp if isinstance(e, str)]
     if errs:
         if got != {'e': errs[0]}:
@@ -985,14 +1227,14 @@ def spec_step(case, got):
     if isinstance(got, dict):
         # TypeError from 'text'/100 when the pident column holds text: outside the property (documented in wf? no: report)
         d = case['_d']
-        for h in case['hits']:
+        for h in ohits:
             e = expect_hit(case, h)
             if isinstance(e[4].get('pident'), str) and 'fident' not in e[4] and got == {'e': 'TypeError'}:
                 return None
         return 'raised %s' % got['e']
     if len(got) != len(exp):
         return 'expected %d features, got %d' % (len(exp), len(got))
-    for i, (g, e) in enumerate(zip(got, exp)):
+    for i, (g, e, h) in enumerate(zip(got, exp, ohits)):
         if g[0] != e[0] or g[1] != e[1]:
             return 'hit %d: expected interval [%d,%d) got [%d,%d)' % (i, e[0], e[1], g[0], g[1])
         if g[2] != e[2]:
@@ -1002,7 +1244,7 @@ def spec_step(case, got):
             if gc.get(k) != repr(v):
                 return 'hit %d: common metadata %s expected %r got %s' % (i, k, v, gc.get(k))
         for k, v in e[4].items():
-            if k in ('pident', 'fident') and k not in [c for c in case_cols(case)]:
+            if k in ('pident', 'fident') and k not in row_cols(case, h):
                 continue
             if gf.get(k) != repr(v):
                 return 'hit %d: format metadata %s expected %r got %s' % (i, k, v, gf.get(k))
@@ -1065,6 +1307,12 @@ def spec(case, got):
     if not isinstance(got, list) or len(got) != len(steps):
         return 'history: expected %d step results' % len(steps)
     acc = None
+    if case.get('_kind') == 'concat':
+        # two texts one after the other read to the first result followed by the second (first error wins)
+        a, b, ab = got
+        want = a if is_err(a) else b if is_err(b) else a + b
+        if ab != want:
+            return 'concatenation: A+B does not read to read(A) followed by read(B)'
     for i, (st, g) in enumerate(zip(steps, got)):
         gg = g
         if st.get('comments') == 'shared' and acc is not None and isinstance(g, dict) and 'comments' in g:
